@@ -207,3 +207,59 @@ def descriptor_sweep(kind, offset=None):
     o.append('  VP_REACH("descriptor sweep end");')
     o.append('}')
     return '\n'.join(o) + '\n'
+
+
+def c16_readers(b):
+    """every reader of a format (generic by-identifier with each identifier, dedicated getters, legacy get)
+    is called from ONE wrapper whose function contract has an EMPTY assigns clause; CBMC's dynamic frame
+    condition checking (goto-instrument --dfcc --enforce-contract) then proves that nothing reachable
+    from a reader writes outside its own stack frame - not even the same bytes back into the PDU.
+    Native replay: the PDU lies in a page that is mprotect()-ed read-only."""
+    L = b.spec_len
+    o = ['#include "vp.h"', '#include "%s"' % b.header]
+    o.append('#ifndef __CPROVER__')
+    o.append('#include <sys/mman.h>')
+    o.append('#endif')
+    o.append('typedef struct { uint8_t buf[%d]; } vp_in_t;' % L)
+    o.append('uint64_t vp_readers(%s *pdu)' % b.ctype)
+    o.append('#ifdef __CPROVER__')
+    o.append('  __CPROVER_requires(1) __CPROVER_ensures(1) __CPROVER_assigns()')
+    o.append('#endif')
+    o.append('{')
+    o.append('  uint64_t sink = 0;')
+    n = 0
+    for f in b.fields:
+        if f['enum']:
+            o.append('  sink ^= %s(pdu, %s);' % (b.getfield, f['enum']))
+            n += 1
+        if f['getter']:
+            o.append('  sink ^= (uint64_t)%s(pdu);' % f['getter'])
+            n += 1
+    if b.legacy and b.legacy['get']:
+        vt = 'uint32_t' if b.fmt == 'common' else 'uint64_t'
+        o.append('  { %s val = 0;' % vt)
+        for f in b.fields:
+            if f['enum']:
+                o.append('    (void)%s((void *)pdu, %s, &val); sink ^= val;' % (b.legacy['get'], f['enum']))
+                n += 1
+        o.append('  }')
+    if b.getpayload:
+        o.append('  sink ^= (uint64_t)(uintptr_t)%s(pdu);' % b.getpayload)
+    if b.fmt == 'can':
+        o.append('  sink ^= Avtp_Can_GetCanPayloadLength(pdu);')
+    o.append('  return sink;')
+    o.append('}')
+    o.append('void harness(void) {')
+    o.append('  VP_INPUT(vp_in_t, in);')
+    o.append('#ifdef __CPROVER__')
+    o.append('  uint8_t *obj = vp_pdu_from(in.buf, %d);' % L)
+    o.append('#else')
+    o.append('  uint8_t *page = mmap(0, 8192, PROT_READ | PROT_WRITE, MAP_PRIVATE | MAP_ANONYMOUS, -1, 0);')
+    o.append('  uint8_t *obj = page + 4096 - %d; memcpy(obj, in.buf, %d);' % (L, L))
+    o.append('  mprotect(page, 4096, PROT_READ);     /* a write by any reader now faults (ASan: SEGV on a WRITE access) */')
+    o.append('#endif')
+    o.append('  uint64_t s = vp_readers((%s *)obj);' % b.ctype)
+    o.append('  VP_ASSERT(s == s, "sink");')
+    o.append('  VP_REACH("c16 %s readers end");' % b.fmt)
+    o.append('}')
+    return '\n'.join(o) + '\n', n
